@@ -83,7 +83,7 @@ def make_args_unique(a: ast.Lambda) -> ast.Lambda:
         def visit_Name(self, node: ast.Name) -> ast.Name:
             for n in reversed(self._arg_stack):
                 if n[0] == node.id:
-                    return ast.Name(id=n[1])
+                    return ast.Name(id=n[1], ctx=ast.Load())
             return node
 
     return replace_args().visit(copy.deepcopy(a))
@@ -457,7 +457,7 @@ class simplify_chained_calls(FuncADLNodeTransformer):
         # Now rebuild the call
         a = arg_name()
         call_args = {
-            "func": ast.Attribute(value=ast.Name(a, ast.Load()), attr=method_name),
+            "func": ast.Attribute(value=ast.Name(a, ast.Load()), attr=method_name, ctx=ast.Load()),
             "args": method_args,
         }
         if hasattr(node, "keywords"):
@@ -630,7 +630,10 @@ class simplify_chained_calls(FuncADLNodeTransformer):
         # Build the select that starts from the source and does the slice.
         a = arg_name()
         select = make_Select(
-            first, lambda_build(a, ast.Attribute(value=ast.Name(a, ast.Load()), attr=attr))
+            first,
+            lambda_build(
+                a, ast.Attribute(value=ast.Name(a, ast.Load()), attr=attr, ctx=ast.Load())
+            ),
         )
 
         return self.visit(function_call("First", [select]))
